@@ -21,7 +21,10 @@ from prop_C15 import dump_masked
 
 ID = "C14"
 COQ_PROP = "C14"
-FAMILIES = [(fam_syncprops, 1500, 20000)]
+import fam_locate  # noqa: E402
+
+# sync_properties is built on find_in_ast / RewriteAtQuery
+FAMILIES = [(fam_syncprops, 1500, 20000), (fam_locate, 1500, 20000)]
 TECHNIQUE = ("Coq proofs over a transcription of sync_property/sync_properties (event model: no write unless every pair "
              "succeeded, the input file is never written, by induction over the list of pairs; each pair is a single "
              "first-match replacement by the frame theorem of RewriteAtQuery) + differential correspondence of SyncProps.v "
